@@ -25,13 +25,15 @@ Step(e) ==
     \/ e.act.op = "Build" /\ BuildAny([state |-> e.act.cfg.state, sp |-> e.act.cfg.sp]) /\ last'.listing = Lst(e.res.listing)
     \/ e.act.op = "Sub" /\ Sub(e.act.d) /\ last'.listing = Lst(e.res.listing)
     \/ e.act.op = "BuildOther" /\ BuildOther
+    \/ e.act.op = "UpdateMeta" /\ UpdateMeta /\ last'.listing = Lst(e.res.listing)
     \/ e.act.op = "Perm" /\ Tick /\ act' = [op |-> "Perm"] /\ UNCHANGED <<ws, warm, last>>
 Match == Have /\ Step(Ev) /\ l' = l + 1 /\ UNCHANGED tid
 Say(tag, clause) == PrintT(<<tag, "C03", clause, tid, l, {}>>)
 Resync == /\ ws' = IF Ev.act.op = "Edit" THEN [ws EXCEPT ![Ev.act.p] = Ev.act.c] ELSE ws
           /\ warm' = IF Ev.act.op = "Build" /\ Ev.act.cfg.state = "real" THEN [p \in Paths |-> IF p \in Files(ws) THEN ws[p] ELSE warm[p]]
                      ELSE IF Ev.act.op = "BuildOther" THEN [p \in Paths |-> IF p \in Files(ws) THEN "other:" \o ws[p] ELSE warm[p]] ELSE warm
-          /\ last' = [op |-> Ev.act.op, listing |-> IF "listing" \in DOMAIN Ev.res THEN Lst(Ev.res.listing) ELSE {}]
+          /\ last' = [op |-> Ev.act.op, listing |-> IF "listing" \in DOMAIN Ev.res THEN Lst(Ev.res.listing) ELSE {},
+                      oid |-> IF "listing" \in DOMAIN Ev.res THEN Lst(Ev.res.listing) ELSE {}]
           /\ act' = [op |-> Ev.act.op] /\ steps' = steps + 1
 Fail == Have /\ ~ENABLED Match /\ Resync /\ l' = l + 1 /\ UNCHANGED tid /\ Say("DIVERGENCE", Ev.act.op)
 Judge ==
@@ -44,6 +46,9 @@ Judge ==
     /\ (e.act.op = "Sub" =>
           /\ (Lst(r.listing) = TruthUnder(ws', e.act.d) \/ Say("VERDICT", "SubListing"))
           /\ ((r.oid_canon /\ r.direct_same) \/ Say("VERDICT", "SubObjectDiffersFromDirectBuild")))
+    /\ (e.act.op = "UpdateMeta" =>
+          /\ ((last.op \in {"Build", "UpdateMeta"} => Lst(r.listing) = last.listing) \/ Say("VERDICT", "UpdateMetaChangedEntries"))
+          /\ ((r.oid_canon /\ r.same_oid) \/ Say("VERDICT", "OidNotCanonical")))
     /\ (e.act.op = "Perm" =>
           ((Lst(r.listing) = Lst(r.entries) /\ r.oid_canon /\ r.same_as_first) \/ Say("VERDICT", "InsertionOrderOrMetadataMatters")))
     \* two different listings never serialise to the same bytes (checked once per document)
